@@ -10,6 +10,8 @@ impl Bytes {
     #[verifier::external_body]
     pub fn len(&self) -> (r: usize) ensures r == self@.len() { unimplemented!() }
     #[verifier::external_body]
+    pub fn is_empty(&self) -> (r: bool) ensures r == (self@.len() == 0) { unimplemented!() }
+    #[verifier::external_body]
     pub fn as_slice(&self) -> (r: &[u8]) ensures r@ == self@ { unimplemented!() }
 }
 impl Clone for Bytes {
